@@ -153,7 +153,7 @@ def m_str_replace_char(ex, st, callee, args):
     pat = scalar(ex, st, args[1])
     to = need(ex, st, args[2], callee)
     n = len(s.fields)
-    if n > 8:
+    if n > 24:
         raise Inconclusive("replace on a string longer than the bound")
     out = []
     for mask in range(1 << n):
